@@ -246,6 +246,8 @@ def _resolve_pre(spec):
 
 
 def _serve() -> None:
+    from .core import die_with_parent
+    die_with_parent()
     preimport()
     inp, outp = sys.stdin.buffer, sys.stdout.buffer
     sys.stdout = sys.stderr
@@ -256,8 +258,11 @@ def _serve() -> None:
         req = pickle.loads(inp.read(struct.unpack('<I', hdr)[0]))
         r = run_meson(req['argv'], req['cwd'], req['env'], _resolve_pre(req['pre']), req['timeout'])
         blob = pickle.dumps(tuple(r))
-        outp.write(struct.pack('<I', len(blob)) + blob)
-        outp.flush()
+        try:
+            outp.write(struct.pack('<I', len(blob)) + blob)
+            outp.flush()
+        except BrokenPipeError:
+            break           # the client is gone
 
 
 # ---------------------------------------------------------------------------------------------------------
